@@ -27,6 +27,7 @@ RULE = (
 RULE += '; check_cancellation is also asked inside the handler of a delivered CancelledError; disposables may spawn a task while entering'
 RULE += "; check scripts may spawn a task that fails at once (spawn_fail); a task of the victim's scopes must have ended when the victim has ended (event log)"
 RULE += '; scripts may leave a scope while a cancel from outside arrives during the wait (leave_cancelled); prepared scopes in programs'
+RULE += '; disposables whose set-up / cleanup suspends and absorbs an interruption'
 LEVEL_TEXT = (
     "Exhaustive single-fault injection: asyncio delivers a cancel to any task that is not done, and the generated "
     "programs never catch it, so 'not done at injection => task ends cancelled and every task it spawned in its scopes "
@@ -380,7 +381,8 @@ def strategy(tier):
     progs = conc.program(disp_faults=True, body_raises=True).map(lambda p: {"kind": "prog", **p, "inject": None})
     steps = st.sampled_from(["ctx_cancel", "ctx_cancel", "ext_cancel", "uncancel", "check", "check", "yield", "yield", "other", "enter", "leave", "leave_err", "spawn_fail", "leave_cancelled"])
     checks = st.builds(lambda s: {"kind": "check", "script": s}, st.lists(steps, min_size=1, max_size=10))
-    return st.one_of(progs, progs, checks)
+    absorbing = conc.absorbing_disposable_program().map(lambda p: {"kind": "prog", **p, "inject": None})
+    return st.one_of(progs, progs, progs, progs, checks, checks, absorbing)
 
 
 STEPS = ["ctx_cancel", "ext_cancel", "uncancel", "check", "yield", "other", "enter", "leave", "leave_err"]
